@@ -86,6 +86,7 @@ package randomness
 
 //@ func selectM
 //@   modifies nothing
+//@   pure
 //@   ensures r0 == (n >= 100000000 ? 1000000 : n >= 1000000 ? 10000 : n >= 10000 ? 1000 : n >= 1000 ? 100 : 10)
 
 //@ func FrequencyWithinBlockProto
@@ -491,3 +492,291 @@ package randomness
 //@   loop 2
 //@     invariant 0 <= i && (n/2 - 1 >= 0 ==> i <= n/2 - 1)
 //@     invariant N_1 == cntbelow(rr, T, i) && 0 <= N_1 && N_1 <= i
+// ---------------------------------------------------------------------------------------------
+// wrappers and registry runners (generated by /verif/tools/gen_wrappers.py)
+
+//@ func FrequencyWithinBlockTest
+//@   requires len(bits) >= 10
+//@   modifies nothing
+//@   pure
+//@   ensures r0 == FrequencyWithinBlockProto#0(bits, selectM#0(len(bits)))
+//@   ensures r1 == FrequencyWithinBlockProto#1(bits, selectM#0(len(bits)))
+
+//@ func FrequencyWithinBlockTestBytes
+//@   requires 1 <= m && m <= 8*len(data)
+//@   modifies nothing
+//@   pure
+//@   ensures r0 == FrequencyWithinBlockProto#0(expand(data), 8*len(data), m)
+//@   ensures r1 == FrequencyWithinBlockProto#1(expand(data), 8*len(data), m)
+
+//@ func PokerTest
+//@   requires len(bits) >= 8
+//@   modifies nothing
+//@   pure
+//@   ensures r0 == PokerProto#0(bits, 8)
+//@   ensures r1 == PokerProto#1(bits, 8)
+
+//@ func OverlappingTemplateMatchingTest
+//@   requires len(bits) >= 5
+//@   modifies nothing
+//@   pure
+//@   ensures r0 == OverlappingTemplateMatchingProto#0(bits, 5)
+//@   ensures r1 == OverlappingTemplateMatchingProto#1(bits, 5)
+//@   ensures r2 == OverlappingTemplateMatchingProto#2(bits, 5)
+//@   ensures r3 == OverlappingTemplateMatchingProto#3(bits, 5)
+
+//@ func OverlappingTemplateMatchingTestBytes
+//@   cases m in {2, 3, 5, 7}
+//@   requires len(data) >= 1
+//@   modifies nothing
+//@   pure
+//@   ensures r0 == OverlappingTemplateMatchingProto#0(expand(data), 8*len(data), m)
+//@   ensures r1 == OverlappingTemplateMatchingProto#1(expand(data), 8*len(data), m)
+//@   ensures r2 == OverlappingTemplateMatchingProto#2(expand(data), 8*len(data), m)
+//@   ensures r3 == OverlappingTemplateMatchingProto#3(expand(data), 8*len(data), m)
+
+//@ func ApproximateEntropyTest
+//@   requires len(bits) >= 1
+//@   modifies nothing
+//@   pure
+//@   ensures r0 == ApproximateEntropyProto#0(bits, 5)
+//@   ensures r1 == ApproximateEntropyProto#1(bits, 5)
+
+//@ func ApproximateEntropyTestBytes
+//@   cases m in {2, 5, 7}
+//@   requires len(data) >= 1
+//@   modifies nothing
+//@   pure
+//@   ensures r0 == ApproximateEntropyProto#0(expand(data), 8*len(data), m)
+//@   ensures r1 == ApproximateEntropyProto#1(expand(data), 8*len(data), m)
+
+//@ func RunsTestBytes
+//@   requires len(data) >= 1
+//@   modifies nothing
+//@   pure
+//@   ensures r0 == RunsTest#0(expand(data), 8*len(data))
+//@   ensures r1 == RunsTest#1(expand(data), 8*len(data))
+
+//@ func RunsDistributionTestBytes
+//@   requires len(data) >= 13
+//@   modifies nothing
+//@   pure
+//@   ensures r0 == RunsDistributionTest#0(expand(data), 8*len(data))
+//@   ensures r1 == RunsDistributionTest#1(expand(data), 8*len(data))
+
+//@ func LongestRunOfOnesInABlockTest
+//@   cases checkOne in {true, false}
+//@   requires len(bits) >= 128
+//@   modifies nothing
+//@   pure
+//@   ensures r0 == LongestRunOfOnesInABlockProto#0(bits, checkOne)
+//@   ensures r1 == LongestRunOfOnesInABlockProto#1(bits, checkOne)
+
+//@ func LongestRunOfOnesInABlockTestBytes
+//@   cases checkOne in {true, false}
+//@   requires len(data) >= 16
+//@   modifies nothing
+//@   pure
+//@   ensures r0 == LongestRunOfOnesInABlockProto#0(expand(data), 8*len(data), checkOne)
+//@   ensures r1 == LongestRunOfOnesInABlockProto#1(expand(data), 8*len(data), checkOne)
+
+//@ func BinaryDerivativeTest
+//@   requires len(bits) >= 7 && 1 <= k && k < len(bits)
+//@   modifies nothing
+//@   pure
+//@   ensures r0 == BinaryDerivativeProto#0(bits, k)
+//@   ensures r1 == BinaryDerivativeProto#1(bits, k)
+
+//@ func BinaryDerivativeTestBytes
+//@   requires len(data) >= 1 && 1 <= k && k < 8*len(data)
+//@   modifies nothing
+//@   pure
+//@   ensures r0 == BinaryDerivativeProto#0(expand(data), 8*len(data), k)
+//@   ensures r1 == BinaryDerivativeProto#1(expand(data), 8*len(data), k)
+
+//@ func AutocorrelationTest
+//@   requires len(bits) >= 16 && 1 <= d && d < len(bits)
+//@   modifies nothing
+//@   pure
+//@   ensures r0 == AutocorrelationProto#0(bits, d)
+//@   ensures r1 == AutocorrelationProto#1(bits, d)
+
+//@ func AutocorrelationTestBytes
+//@   requires len(data) >= 2 && 1 <= d && d < 8*len(data)
+//@   modifies nothing
+//@   pure
+//@   ensures r0 == AutocorrelationProto#0(expand(data), 8*len(data), d)
+//@   ensures r1 == AutocorrelationProto#1(expand(data), 8*len(data), d)
+
+//@ func MatrixRankTest
+//@   requires len(bits) >= 1024
+//@   modifies nothing
+//@   pure
+//@   ensures r0 == MatrixRankProto#0(bits, 32, 32)
+//@   ensures r1 == MatrixRankProto#1(bits, 32, 32)
+
+//@ func MatrixRankTestBytes
+//@   cases M in {32}
+//@   cases Q in {32}
+//@   requires len(data) >= 128
+//@   modifies nothing
+//@   pure
+//@   ensures r0 == MatrixRankProto#0(expand(data), 8*len(data), M, Q)
+//@   ensures r1 == MatrixRankProto#1(expand(data), 8*len(data), M, Q)
+
+//@ func CumulativeTestBytes
+//@   cases forward in {true, false}
+//@   requires len(data) >= 1
+//@   modifies nothing
+//@   pure
+//@   ensures r0 == CumulativeTest#0(expand(data), 8*len(data), forward)
+//@   ensures r1 == CumulativeTest#1(expand(data), 8*len(data), forward)
+
+//@ func LinearComplexityTest
+//@   requires len(bits) >= 500
+//@   modifies nothing
+//@   pure
+//@   ensures r0 == LinearComplexityProto#0(bits, 500)
+//@   ensures r1 == LinearComplexityProto#1(bits, 500)
+
+//@ func LinearComplexityTestBytes
+//@   requires 1 <= m && m <= 8*len(data)
+//@   modifies nothing
+//@   pure
+//@   ensures r0 == LinearComplexityProto#0(expand(data), 8*len(data), m)
+//@   ensures r1 == LinearComplexityProto#1(expand(data), 8*len(data), m)
+
+//@ func MaurerUniversalTestBytes
+//@   requires len(data) >= 1121
+//@   modifies nothing
+//@   pure
+//@   ensures r0 == MaurerUniversalTest#0(expand(data), 8*len(data))
+//@   ensures r1 == MaurerUniversalTest#1(expand(data), 8*len(data))
+
+//@ func DiscreteFourierTransformTestBytes
+//@   requires 1 <= len(data) && len(data) <= 16777216
+//@   modifies nothing
+//@   pure
+//@   ensures r0 == DiscreteFourierTransformTest#0(expand(data), 8*len(data))
+//@   ensures r1 == DiscreteFourierTransformTest#1(expand(data), 8*len(data))
+
+//@ func MonoBitFrequency
+//@   requires len(data) >= 1
+//@   modifies nothing
+//@   pure
+//@   ensures r0 != nil && fresh(r0)
+//@   ensures r0.P == MonoBitFrequencyTestBytes#0(data) && r0.Q == MonoBitFrequencyTestBytes#1(data)
+//@   ensures r0.Pass == (r0.P >= Alpha)
+
+//@ func FrequencyWithinBlock
+//@   requires len(data) >= 2
+//@   modifies nothing
+//@   pure
+//@   ensures r0 != nil && fresh(r0)
+//@   ensures r0.P == FrequencyWithinBlockTest#0(expand(data), 8*len(data)) && r0.Q == FrequencyWithinBlockTest#1(expand(data), 8*len(data))
+//@   ensures r0.Pass == (r0.P >= Alpha)
+
+//@ func Poker
+//@   requires len(data) >= 1
+//@   modifies nothing
+//@   pure
+//@   ensures r0 != nil && fresh(r0)
+//@   ensures r0.P == PokerTestBytes#0(data, 8) && r0.Q == PokerTestBytes#1(data, 8)
+//@   ensures r0.Pass == (r0.P >= Alpha)
+
+//@ func OverlappingTemplateMatching
+//@   requires len(data) >= 1
+//@   modifies nothing
+//@   pure
+//@   ensures r0 != nil && fresh(r0)
+//@   ensures r0.P == OverlappingTemplateMatchingTestBytes#0(data, 5) && r0.P2 == OverlappingTemplateMatchingTestBytes#1(data, 5) && r0.Q == OverlappingTemplateMatchingTestBytes#2(data, 5) && r0.Q2 == OverlappingTemplateMatchingTestBytes#3(data, 5)
+//@   ensures r0.Pass == (minR(r0.P, r0.P2) >= Alpha)
+
+//@ func Runs
+//@   requires len(data) >= 1
+//@   modifies nothing
+//@   pure
+//@   ensures r0 != nil && fresh(r0)
+//@   ensures r0.P == RunsTestBytes#0(data) && r0.Q == RunsTestBytes#1(data)
+//@   ensures r0.Pass == (r0.P >= Alpha)
+
+//@ func RunsDistribution
+//@   requires len(data) >= 13
+//@   modifies nothing
+//@   pure
+//@   ensures r0 != nil && fresh(r0)
+//@   ensures r0.P == RunsDistributionTestBytes#0(data) && r0.Q == RunsDistributionTestBytes#1(data)
+//@   ensures r0.Pass == (r0.P >= Alpha)
+
+//@ func LongestRunOfOnesInABlock
+//@   requires len(data) >= 16
+//@   modifies nothing
+//@   pure
+//@   ensures r0 != nil && fresh(r0)
+//@   ensures r0.P == LongestRunOfOnesInABlockTestBytes#0(data, true) && r0.Q == LongestRunOfOnesInABlockTestBytes#1(data, true)
+//@   ensures r0.Pass == (r0.P >= Alpha)
+
+//@ func BinaryDerivative
+//@   requires len(data) >= 1
+//@   modifies nothing
+//@   pure
+//@   ensures r0 != nil && fresh(r0)
+//@   ensures r0.P == BinaryDerivativeTestBytes#0(data, 7) && r0.Q == BinaryDerivativeTestBytes#1(data, 7)
+//@   ensures r0.Pass == (r0.P >= Alpha)
+
+//@ func Autocorrelation
+//@   requires len(data) >= 3
+//@   modifies nothing
+//@   pure
+//@   ensures r0 != nil && fresh(r0)
+//@   ensures r0.P == AutocorrelationTestBytes#0(data, 16) && r0.Q == AutocorrelationTestBytes#1(data, 16)
+//@   ensures r0.Pass == (r0.P >= Alpha)
+
+//@ func MatrixRank
+//@   requires len(data) >= 128
+//@   modifies nothing
+//@   pure
+//@   ensures r0 != nil && fresh(r0)
+//@   ensures r0.P == MatrixRankTestBytes#0(data, 32, 32) && r0.Q == MatrixRankTestBytes#1(data, 32, 32)
+//@   ensures r0.Pass == (r0.P >= Alpha)
+
+//@ func Cumulative
+//@   requires len(data) >= 1
+//@   modifies nothing
+//@   pure
+//@   ensures r0 != nil && fresh(r0)
+//@   ensures r0.P == CumulativeTestBytes#0(data, true) && r0.Q == CumulativeTestBytes#1(data, true)
+//@   ensures r0.Pass == (r0.P >= Alpha)
+
+//@ func ApproximateEntropy
+//@   requires len(data) >= 1
+//@   modifies nothing
+//@   pure
+//@   ensures r0 != nil && fresh(r0)
+//@   ensures r0.P == ApproximateEntropyTestBytes#0(data, 5) && r0.Q == ApproximateEntropyTestBytes#1(data, 5)
+//@   ensures r0.Pass == (r0.P >= Alpha)
+
+//@ func LinearComplexity
+//@   requires len(data) >= 63
+//@   modifies nothing
+//@   pure
+//@   ensures r0 != nil && fresh(r0)
+//@   ensures r0.P == LinearComplexityTestBytes#0(data, 500) && r0.Q == LinearComplexityTestBytes#1(data, 500)
+//@   ensures r0.Pass == (r0.P >= Alpha)
+
+//@ func MaurerUniversal
+//@   requires len(data) >= 1121
+//@   modifies nothing
+//@   pure
+//@   ensures r0 != nil && fresh(r0)
+//@   ensures r0.P == MaurerUniversalTestBytes#0(data) && r0.Q == MaurerUniversalTestBytes#1(data)
+//@   ensures r0.Pass == (r0.P >= Alpha)
+
+//@ func DiscreteFourierTransform
+//@   requires 1 <= len(data) && len(data) <= 16777216
+//@   modifies nothing
+//@   pure
+//@   ensures r0 != nil && fresh(r0)
+//@   ensures r0.P == DiscreteFourierTransformTestBytes#0(data) && r0.Q == DiscreteFourierTransformTestBytes#1(data)
+//@   ensures r0.Pass == (r0.P >= Alpha)
+
